@@ -1,4 +1,5 @@
 (* C11 — no over-consumption; exact counters. *)
+From V Require Import Prefix.ReaderImpl Prefix.ReaderSpec Prefix.ReaderThms.
 From V Require Import Base.Prelude Base.Prog Base.ProgThms Flate.Spec Flate.Thms Life.ReadLoop.
 
 (* whatever follows a DEFLATE stream is never inspected: verdict, output and
@@ -41,3 +42,20 @@ Theorem consumption_is_prefix : forall (p : prog unit) s,
               a_pos (res_state (run p s)) = a_pos s + N.of_nat (length c).
 Proof. intros p s. exact (run_mono p s). Qed.
 Print Assumptions consumption_is_prefix.
+
+(* The implementation-level model of prefix.Reader (64-bit buffer, wide loads with
+   look-ahead bits, Peek/Discard bookkeeping, Flush, raw Read after repair D5; validated
+   against the real Reader over scripted sources on every run) REFINES the abstract bit
+   stream: for every data, both bit orders, every script of the source's freedoms (how much
+   more than asked it buffers, how much a raw Read returns) and every sequence of ReadBits
+   (<= 57 bits) / ReadPads / raw Read / Flush: every value is the value of the next bits of
+   the stream, BitsRead is the abstract position, a raw Read returns the bytes at the
+   aligned position, and after a Flush the source has been advanced over exactly the bytes
+   that hold the bits read (no over-consumption). Same for a ReadByte-only source. *)
+Theorem bit_reader_consumes_exactly_buffered : reader_refines_buffered.
+Proof. exact reader_refines_buffered_holds. Qed.
+Print Assumptions bit_reader_consumes_exactly_buffered.
+
+Theorem bit_reader_consumes_exactly_bytereader : reader_refines_bytereader.
+Proof. exact reader_refines_bytereader_holds. Qed.
+Print Assumptions bit_reader_consumes_exactly_bytereader.
